@@ -121,6 +121,17 @@ let owner_hb : (string, n) Hashtbl.t = Hashtbl.create 8
 let now = ref BZ.zero
 (* per (node index, member): number of fresh heartbeat observations and instant of the last one *)
 let fresh : (int * string, int * BZ.t) Hashtbl.t = Hashtbl.create 16
+(* per (node index, member): has the sampling window received a usable interval (two fresh heartbeat
+   observations at most max_interval apart) since the last evaluation that found the member not alive
+   (such an evaluation empties the window) *)
+let usable : (int * string, unit) Hashtbl.t = Hashtbl.create 16
+(* C11: the same with "fresh" read as "strictly higher than every heartbeat this node has ever
+   observed for the member while it knew or remembered it": highest heartbeat observed, instant of the
+   last record-breaking observation, and whether two record-breaking observations at most
+   max_interval apart occurred since the member was last found not alive *)
+let seen_max : (int * string, n) Hashtbl.t = Hashtbl.create 16
+let last_rb : (int * string, BZ.t) Hashtbl.t = Hashtbl.create 16
+let usable_strict : (int * string, unit) Hashtbl.t = Hashtbl.create 16
 let weak_acceptance_seen = ref false
 (* KF-1 attribution: copies (node index, member) that performed a weak acceptance, or applied a node
    delta computed from such a copy; node deltas computed from such copies *)
@@ -135,7 +146,8 @@ let n_checks = ref 0
 
 let reset_case () =
   Hashtbl.reset infos; Hashtbl.reset snaps; Hashtbl.reset ledgers; Hashtbl.reset owner_hb;
-  Hashtbl.reset fresh; now := BZ.zero; Hashtbl.reset tainted; Hashtbl.reset tainted_nds; Hashtbl.reset removed_by_eval;
+  Hashtbl.reset fresh;
+  Hashtbl.reset usable; Hashtbl.reset seen_max; Hashtbl.reset last_rb; Hashtbl.reset usable_strict; now := BZ.zero; Hashtbl.reset tainted; Hashtbl.reset tainted_nds; Hashtbl.reset removed_by_eval;
   weak_acceptance_seen := false; catchup_seen := false
 
 let flag (prop : string) (cls : string option) (what : string) =
@@ -241,6 +253,29 @@ let on_local (idx : int) (obs : string) ~(is_write : bool) : unit =
       end;
       common_checks ~idx info before o.snap ~is_local:true;
       Hashtbl.replace snaps idx o.snap
+  | _ -> ()
+
+(* C06, tombstone GC pass at node idx: on every copy the node holds, the entries that disappear are
+   deleted or TTL-marked ones, the survivors are untouched, max version and heartbeat do not move,
+   and the watermark becomes max(old watermark, highest version removed) *)
+let on_gc_model (idx : int) (before : snap option) (obs : string) : unit =
+  match before, parse_obs obs with
+  | Some b, Some o ->
+      List.iter
+        (fun (i, cb) ->
+          match nm_get i o.snap.nodes with
+          | None -> ()
+          | Some ca ->
+              let removed = List.filter (fun (k, _) -> kget k ca.c_kvs = None) cb.c_kvs in
+              let kept = List.filter (fun (k, _) -> kget k ca.c_kvs <> None) cb.c_kvs in
+              check "C06" (List.for_all (fun (_, v) -> mscheduled (to_mstatus v.v_st)) removed)
+                ("a GC pass removed a live (not deleted, not TTL-marked) entry of " ^ token_of_id i);
+              check "C06" (kvs_eqb kept ca.c_kvs && neq cb.c_max ca.c_max && neq cb.c_hb ca.c_hb)
+                ("a GC pass changed a surviving entry, the max version or the heartbeat of " ^ token_of_id i);
+              let top = List.fold_left (fun m (_, v) -> if nless m v.v_ver then v.v_ver else m) cb.c_gc removed in
+              check "C06" (neq top ca.c_gc)
+                ("after a GC pass the watermark of " ^ token_of_id i ^ " is not max(old watermark, highest version collected)"))
+        b.nodes
   | _ -> ()
 
 let on_proc (idx : int) (msg : message) (obs : string) : unit =
@@ -398,11 +433,28 @@ let on_proc (idx : int) (msg : message) (obs : string) : unit =
            if not rejected then
              List.iter
                (fun (i, g) ->
+                 if not (id_eqb i info.self) then begin
+                   let k = (idx, token_of_id i) in
+                   let known = nm_get i b.nodes <> None || List.exists (fun (j, _) -> id_eqb i j) b.gcn in
+                   if not known then (Hashtbl.remove seen_max k; Hashtbl.remove last_rb k);
+                   (match Hashtbl.find_opt seen_max k with
+                    | Some h when nless h g.g_hb ->
+                        (match Hashtbl.find_opt last_rb k with
+                         | Some t when BZ.compare (BZ.sub !now t) (z_of_cz info.fdc.max_interval) <= 0 ->
+                             Hashtbl.replace usable_strict k ()
+                         | _ -> ());
+                        Hashtbl.replace last_rb k !now;
+                        Hashtbl.replace seen_max k g.g_hb
+                    | Some _ -> ()
+                    | None -> Hashtbl.replace seen_max k g.g_hb)
+                 end;
                  if not (id_eqb i info.self) then
                    match nm_get i b.nodes with
                    | Some cb when not (neq cb.c_hb N0) && nless cb.c_hb g.g_hb ->
                        let k = (idx, token_of_id i) in
-                       let cnt = match Hashtbl.find_opt fresh k with Some (n, _) -> n | None -> 0 in
+                       let cnt, last = match Hashtbl.find_opt fresh k with Some x -> x | None -> (0, BZ.zero) in
+                       if cnt >= 1 && BZ.compare (BZ.sub !now last) (z_of_cz info.fdc.max_interval) <= 0 then
+                         Hashtbl.replace usable k ();
                        Hashtbl.replace fresh k (cnt + 1, !now)
                    | _ -> ())
                dg
@@ -425,6 +477,18 @@ let on_eval (idx : int) (obs : string) : unit =
            List.iter
              (fun (i, _) -> if nm_get i s.nodes = None then Hashtbl.replace removed_by_eval (idx, token_of_id i) ())
              b.nodes
+       | None -> ());
+      (* C05 / C12: a liveness evaluation never touches the node's own copy, let alone removes it *)
+      (match before with
+       | Some b ->
+           (match own_copy_of b info.self, own_copy_of s info.self with
+            | Some cb, Some ca ->
+                check "C05" (kvs_eqb cb.c_kvs ca.c_kvs && neq cb.c_gc ca.c_gc && neq cb.c_max ca.c_max && neq cb.c_hb ca.c_hb)
+                  "a liveness evaluation changed the node's own key-values, versions, watermark or heartbeat"
+            | Some _, None ->
+                check "C05" false "a liveness evaluation removed the node's own state";
+                check "C12" false "a liveness evaluation removed the local node"
+            | _ -> ())
        | None -> ());
       let known = List.map fst s.nodes in
       check "C12" (c12_after_eval_ok info.self known s.live s.dead)
@@ -462,7 +526,12 @@ let on_eval (idx : int) (obs : string) : unit =
                  if silent_too_long then
                    check "C10" ((not is_live) && (is_dead || removed))
                      ("member " ^ token_of_id i ^ " silent for longer than phi_threshold*max(max_interval,initial_interval) but not reported dead");
-                 if removed then Hashtbl.remove fresh k
+                 check "C10" (not is_live || Hashtbl.mem usable k)
+                   ("member " ^ token_of_id i ^ " reported live although its sampling window has received no usable interval (two fresh heartbeats at most max_interval apart) since the evaluation that last found it not alive");
+                 check "C11" (not is_live || Hashtbl.mem usable_strict k)
+                   ("member " ^ token_of_id i ^ " reported live although, since it was last found not alive, no two heartbeats strictly higher than every heartbeat observed before arrived at most max_interval apart (replayed or lower heartbeats counted as evidence)");
+                 if not is_live then (Hashtbl.remove usable k; Hashtbl.remove usable_strict k);
+                 if removed then (Hashtbl.remove fresh k; Hashtbl.remove usable k)
                end)
              b.nodes
        | None -> ());
@@ -512,7 +581,7 @@ let on_delta ?dg (idx : int) (mtu : int) (sched : id list) (obs : string) : unit
     | _ -> ()
   end
 
-let on_catchup ?member (idx : int) (obs : string) : unit =
+let on_catchup ?member ?supplied (idx : int) (obs : string) : unit =
   catchup_seen := true;
   match parse_obs obs with
   | Some o ->
@@ -520,6 +589,30 @@ let on_catchup ?member (idx : int) (obs : string) : unit =
        | Some m when Hashtbl.mem removed_by_eval (idx, token_of_id m) ->
            check "C18" (nm_get m o.snap.nodes = None)
              ("catch-up recreated member " ^ token_of_id m ^ " that a liveness evaluation had garbage collected")
+       | _ -> ());
+      (* C18: the copy is unchanged, or its key set is exactly the supplied one, each key holding the
+         supplied entry or the copy's own entry when that one is at least as recent; the frontier never
+         goes back (checked when the supplied keys are distinct) *)
+      (match member, supplied, Hashtbl.find_opt snaps idx with
+       | Some m, Some (kvs : (bytes * vv) list), Some b ->
+           let distinct = List.for_all (fun (k, _) -> List.length (List.filter (fun (k', _) -> bytes_eqb k k') kvs) = 1) kvs in
+           (match nm_get m b.nodes, nm_get m o.snap.nodes with
+            | Some cb, Some ca when distinct ->
+                let same_entry (a : vv) (e : vv) =
+                  bytes_eqb a.v_val e.v_val && neq a.v_ver e.v_ver && mstatus_eqb (to_mstatus a.v_st) (to_mstatus e.v_st) in
+                let unchanged = kvs_eqb cb.c_kvs ca.c_kvs && neq cb.c_gc ca.c_gc && neq cb.c_max ca.c_max in
+                let expected k (sv : vv) =
+                  match kget k cb.c_kvs with
+                  | Some old when not (nless old.v_ver sv.v_ver) -> old
+                  | _ -> sv in
+                let replaced =
+                  List.for_all (fun (k, _) -> List.exists (fun (k', _) -> bytes_eqb k k') kvs) ca.c_kvs
+                  && List.for_all (fun (k, sv) -> match kget k ca.c_kvs with Some a -> same_entry a (expected k sv) | None -> false) kvs in
+                check "C18" (unchanged || replaced)
+                  ("after a catch-up the copy of " ^ token_of_id m ^ " is neither unchanged nor the supplied key set (with the newer version of common keys kept)");
+                check "C18" (nless cb.c_gc ca.c_gc || (neq cb.c_gc ca.c_gc && not (nless ca.c_max cb.c_max)))
+                  ("a catch-up lowered the (watermark, max version) of " ^ token_of_id m)
+            | _ -> ())
        | _ -> ());
       Hashtbl.replace snaps idx o.snap
   | None -> ()
